@@ -315,10 +315,12 @@ func (hs *clientHandshakeState) handshake() error {
 		if _, err = c.flush(); err != nil {
 			return err
 		}
-		if err = hs.createNewSession(); err != nil {
+		// 会话只在验证了服务端 Finished 之后才写入缓存：
+		// 否则以致命错误结束的握手也会留下会话，并在下次连接时被提供。
+		if err = hs.readFinished(c.serverFinished[:]); err != nil {
 			return err
 		}
-		if err = hs.readFinished(c.serverFinished[:]); err != nil {
+		if err = hs.createNewSession(); err != nil {
 			return err
 		}
 	}
